@@ -216,7 +216,7 @@ public:
                 Rng r(mix64((uint64_t)o.a[0], 0x50));
                 // malformed content: skeletons of every front-end but EA-MUS (RSXX), which is a mode of its own that
                 // deliberately forces 2 chips / generic volumes and locks the setup. CMF/IMF parse and are then refused (no OPL synth here).
-                if(o.a[1] == 2) { int det = 9; for(int t = 0; t < 20 && det == 7; ++t) img = fuzzMusicFile(r, det); } else { int kind; img = validMusicFile(r, kind); }
+                if(o.a[1] == 2) { if(r.chance(0.25)) { img = wellFormedCmf(r); run.count("wellformed_cmf_refused_after_parsing"); } else { int det = 9; for(int t = 0; t < 20 && det == 7; ++t) img = fuzzMusicFile(r, det); } } else { int kind; img = validMusicFile(r, kind); }
             }
             uint64_t digestBefore = (o.kind == G_LOAD_BANK) ? bankDigest(A.dev) : 0;
             std::vector<int> gettersBefore = getters(A.dev);
